@@ -15,6 +15,8 @@ q = ["iso",  e, i, j]                  GraphMatcherEngine.isomorphic(g_i, g_j)
   | ["ctor", {keyword: raw value}]     GraphMatcherEngine(**keywords): the normalised options read back, or the exception class; available_backends()
   | ["obj", "iso"|"maps", e, i|None, j|None]   an engine method handed a non-Graph argument (None): TypeError before anything else
   | ["fgit", [class1, class2], i, j, use_defaults, fast]   find_graph_isomorphism on two networkx graph classes (different classes: None)
+  | ["qpf", host, pattern, node_attrs, edge_attrs, threshold]   SubgraphSearchEngine._quick_pre_filter, and find_subgraph_mappings(strategy="all")
+                                       with pre_filter off and on (numbers of mappings)
   | ["edit", i, k]                     the caller edits graph object i in place into graph value k
   | ["new", j, i, mode, k]             object j is replaced by a NEW object derived from object i (copy / subgraph().copy() / relabel_nodes /
                                        Graph(g) / deepcopy / a fresh Graph()) and edited by small steps into graph value k
@@ -167,6 +169,37 @@ def _ctor_call(kw):
     assert e.backend == "nx" and isinstance(e.wl1_filter, bool)
     return [[_key(k, None) for k in e.node_attrs], [_key(k, None) for k in e.edge_attrs], e.wl1_filter,
             [] if e.max_mappings is None else [e.max_mappings], [list(b.encode()) for b in e.available_backends()]]
+
+
+QPF_KNOWN_KEY = "C07:quick_pre_filter:estimate-guard:chain6-in-chain12"
+
+
+def _qpf_call(q, gs):
+    """["qpf", host, pattern, node_attrs, edge_attrs, threshold]: SubgraphSearchEngine._quick_pre_filter and
+    find_subgraph_mappings(strategy="all") with the pre-filter off and on -> [skip?, number of mappings without, with]."""
+    from synkit.Graph.Matcher.subgraph_matcher import SubgraphSearchEngine as SSE
+    H, P, na, ea, thr = gs[q[1]], gs[q[2]], list(q[3]), list(q[4]), q[5]
+    skip = bool(SSE._quick_pre_filter(H, P, na, thr))
+    off = SSE.find_subgraph_mappings(H, P, node_attrs=na, edge_attrs=ea, strategy="all", threshold=thr, pre_filter=False)
+    on = SSE.find_subgraph_mappings(H, P, node_attrs=na, edge_attrs=ea, strategy="all", threshold=thr, pre_filter=True)
+    return [skip, len(off), len(on)]
+
+
+def _qpf_guard_fires(H, P, na, thr):
+    """Independent reference: does the documented estimate guard (running product of the candidate counts > threshold * 1e4) decide?"""
+    est = 1
+    for p in P.nodes:
+        cnt = 0
+        for h in H.nodes:
+            if all(H.nodes[h].get(a) == P.nodes[p].get(a) for a in na) and H.nodes[h].get("hcount", 0) >= P.nodes[p].get("hcount", 0) \
+                    and H.degree(h) >= P.degree(p):
+                cnt += 1
+        if cnt == 0:
+            return False
+        est *= cnt
+        if est > thr * 10000:
+            return True
+    return False
 
 
 GRAPH_CLASSES = ["Graph", "DiGraph", "MultiGraph", "MultiDiGraph"]
@@ -463,6 +496,8 @@ def _run_query(q, gs, engs, specs):
     k = q[0]
     if k == "ctor":
         return _ctor_call(q[1])
+    if k == "qpf":
+        return _qpf_call(q, gs)
     if k == "obj":
         return _obj_call(q, gs, engs)
     if k == "fgit":
@@ -496,7 +531,7 @@ def _run_query(q, gs, engs, specs):
 def _obs(q, r, gs, specs, trace=None):
     if q[0] == "fgi":
         return [r is not None, len(r) if r is not None else 0, trace]
-    if q[0] in ("ctor", "obj"):
+    if q[0] in ("ctor", "obj", "qpf"):
         return list(r) if isinstance(r, list) else r
     if q[0] == "iso":
         return [r, trace]
@@ -779,6 +814,11 @@ def coq_case(case):
                 qs.append("(HNew %s %s)" % (cnat(q[1]), cnat(q[4])))
             elif k == "ctor":
                 qs.append(wrap("(QCtor %s)" % _craw(q[1])))
+            elif k == "qpf":
+                if "hcount" in q[3] or "hcount" in q[4]:
+                    return None
+                qs.append(wrap("(QQpf %s %s %s %s %s)" % (cnat(q[1]), cnat(q[2]), clist([cN(_key(a, dyn)) for a in q[3]]),
+                                                         clist([cN(_key(a, dyn)) for a in q[4]]), cN(q[5]))))
             elif k == "obj":
                 qs.append(wrap("(QObj %s %s %s %s)" % (cbool(q[1] == "maps"), cnat(q[2]), copt(None if q[3] is None else cnat(q[3])),
                                                        copt(None if q[4] is None else cnat(q[4])))))
@@ -1029,10 +1069,10 @@ def oracle(case):
         if k == "iso":
             g1, g2 = gs[q[2]], gs[q[3]]
             nm1, em = _eng_match(spec)
-            nm2, _ = _eng_match(spec, flip=True)
-            A, Bv = _iso_exists(g1, g2, nm1, em), _iso_exists(g1, g2, nm2, em)
-            if (A and Bv and not got) or (not A and not Bv and got):
-                bad("iso-exact", "%s: verdict %r, brute force (either hcount orientation) %r" % (tag, got, A))
+            # the FIRST argument is the hcount host (GraphMatcher(g1, g2) hands (g1 attrs, g2 attrs) to the node matcher): C07_iso_verdict
+            A = _iso_exists(g1, g2, nm1, em)
+            if got != A:
+                bad("iso-exact", "%s: verdict %r, brute force (bijection with hcount(first argument) >= hcount(second argument)) %r" % (tag, got, A))
             for which in (2, 3):
                 gg = {q[2]: fresh_graph(q[2]), q[3]: fresh_graph(q[3])}
                 gg[q[which]] = _relabelled(gg[q[which]])
@@ -1042,11 +1082,11 @@ def oracle(case):
                 if r != got:
                     bad("relabel-invariant", "%s: verdict %r, after relabelling argument %d: %r" % (tag, got, which - 1, r))
                     break
-            hs = _hset(g1) | _hset(g2)
-            if len(hs) <= 1:
+            # symmetric whenever the total hydrogen counts agree (absent = 0): C07_symmetric_equal_totals
+            if sum(d.get("hcount", 0) for _, d in g1.nodes(data=True)) == sum(d.get("hcount", 0) for _, d in g2.nodes(data=True)):
                 r = _ask(["iso", q[1], q[3], q[2]], {q[2]: fresh_graph(q[2]), q[3]: fresh_graph(q[3])}, {q[1]: _engine(spec)}, specs)
                 if r != got:
-                    bad("symmetric", "%s: verdict %r, swapped arguments %r (hcounts equal/absent)" % (tag, got, r))
+                    bad("symmetric", "%s: verdict %r, swapped arguments %r (equal total hydrogen counts)" % (tag, got, r))
         elif k == "maps":
             H, P = gs[q[2]], gs[q[3]]
             nm1, em = _eng_match(spec)
@@ -1096,6 +1136,22 @@ def oracle(case):
                     answered[("sub",) + key][1] = mono_ans = got
                 if ind_ans is True and mono_ans is False:
                     bad("subgraph-def", "%s: the induced test of the same call answers True but the monomorphism test False" % tag)
+        elif k == "qpf":
+            # pre_filter on / off: the same result set — except through the documented estimate guard (theorem C07_quick_pre_filter_refuted;
+            # the guard's witness is a known finding), and never a non-empty result that differs
+            skip, off, on = got
+            H, P = gs[q[1]], gs[q[2]]
+            nm1, em = _eng_match({"na": q[3], "ea": q[4]})
+            want = len(_embed(P, H, nm1, em, False))
+            if off != (want if want <= q[5] else 0):
+                bad("embedding-found", "%s: find_subgraph_mappings(strategy='all') returns %d mappings, brute force finds %d monomorphisms (threshold %d)" % (tag, off, want, q[5]))
+            elif on != off:
+                if on == 0 and _qpf_guard_fires(H, P, q[3], q[5]):
+                    fails.append(dict(clause="filter-neutral", key=QPF_KNOWN_KEY,
+                                      detail="%s: pre_filter=True returns [] where pre_filter=False returns %d mappings: the estimate guard of _quick_pre_filter "
+                                             "(candidate product > threshold * 1e4) fired" % (tag, off)))
+                else:
+                    bad("filter-neutral", "%s: pre_filter=False returns %d mappings, pre_filter=True %d, and the estimate guard did not fire" % (tag, off, on))
         elif k == "giso":
             nmatch = lambda h, pp: h.get("element", "*") == pp.get("element", "*") and h.get("charge", 0) == pp.get("charge", 0)
             ematch = lambda h, pp: h.get("order", 1) == pp.get("order", 1)
@@ -1287,6 +1343,8 @@ def _battery(rng, pairs, n_eng, subs=True, nosubs=(), alt=True, nfixed=8, thin=0
             if alt and rng.random() < 0.08:      # an engine method handed something that is not a graph (TypeError before anything else)
                 a, b = rng.choice([(None, j), (i, None), (None, None), (i, j)])
                 qs.append(["obj", rng.choice(["iso", "maps"]), rng.randrange(n_eng), a, b])
+            if alt and rng.random() < 0.1:       # the search engine's own pre-filter on / off (threshold so large that its estimate guard stays silent)
+                qs.append(["qpf", i, j, rng.choice([["element"], ["element", "charge"], []]), rng.choice([["order"], []]), rng.choice([5000, 100000])])
             if alt and rng.random() < 0.08:      # find_graph_isomorphism on two different networkx classes answers None at once
                 c1, c2 = rng.choice([("Graph", "DiGraph"), ("DiGraph", "Graph"), ("Graph", "MultiGraph"), ("MultiDiGraph", "DiGraph"),
                                      ("MultiGraph", "MultiDiGraph"), ("Graph", "Graph")])
